@@ -44,6 +44,24 @@ def exc_matches(exc: BaseException, name: str) -> bool:
     return any(c.__name__ == name for c in type(exc).__mro__)
 
 
+def native_snapshot(ns_args):
+    """Pre-state for `s.old`: objects with a __dict__ of a mutable repository class (bit reader / writer) are copied
+       shallowly, bytearray attributes as bytes."""
+    import copy
+
+    out = {}
+    for k, v in ns_args.items():
+        if type(v).__name__ in ("_BitReader", "_BitWriter"):
+            c = copy.copy(v)
+            for a, x in list(vars(c).items()):
+                if isinstance(x, bytearray):
+                    setattr(c, a, bytes(x))
+            out[k] = c
+        else:
+            out[k] = v
+    return NS(**out)
+
+
 class Outcome:
     def __init__(self):
         self.ok = True
@@ -88,6 +106,8 @@ def check_call(contract: Contract, call: Callable[[], Any], ns_args: Dict[str, A
     assert speclib.CTX is None
     out = Outcome()
     ns = NS(**ns_args)
+    if "old" not in ns_args:
+        ns.__dict__["old"] = native_snapshot(ns_args)
     try:
         pre = contract.clauses("pre", ns)
     except Exception as e:  # a precondition that cannot be evaluated: input outside the contract's domain
@@ -147,7 +167,8 @@ def check_call(contract: Contract, call: Callable[[], Any], ns_args: Dict[str, A
                 matched = xname
                 break
         if matched is None:
-            for xname, cond in getattr(contract, "raises_if", {}).items():
+            one_sided = list(getattr(contract, "raises_if", {}).items()) + list(getattr(contract, "raises_only_if", {}).items())
+            for xname, cond in one_sided:
                 if exc_matches(raised, xname):
                     ns.__dict__["exc"] = raised
                     if not bool(cond(ns)):
